@@ -183,7 +183,7 @@ def cold(v):
 
 
 def buffer_inv(v, sv):
-    return [('threshold-is-60-percent', z3.BoolVal(v.threshold.val == 0.6))]
+    return [('threshold-is-60-percent', z3.BoolVal(v.threshold.val == 0.6))] + events_inv('buffer')(v, sv)
 
 
 REG.invariants['Buffer'] = buffer_inv
@@ -194,17 +194,40 @@ def obs_ok(sv, ob):
     return z3.Select(sv.heap('Observation', 'buffer_id'), ob) == 0
 
 
+def unlogged(sv, actor):
+    """ghost: number of records in the actor's event list that the monitor has not collated yet (C13 conservation)"""
+    return sv.ghost('unlogged_' + actor)
+
+
 def _add_event_ens(actor):
     def ens(c):
         ev = c.o.self.events
         code = EVENT(c.o.now, z3.IntVal(STRINGS.intern(actor)), c.o.observation.name.t, c.o.event.t, c.o.resource.t)
         return [('C13-one-record-stamped-with-current-time', z3.And(
-            c.n.self.events.cnt == z3.Store(ev.cnt, code, z3.Select(ev.cnt, code) + 1), c.n.self.events.n == ev.n + 1))]
+            c.n.self.events.cnt == z3.Store(ev.cnt, code, z3.Select(ev.cnt, code) + 1), c.n.self.events.n == ev.n + 1)),
+                ('C13-counted-as-not-yet-logged', unlogged(c.n, actor) == unlogged(c.o, actor) + 1)]
     return ens
 
 
+def _add_event_ghost(actor):
+    def g(eng, vals):
+        nm = 'unlogged_' + actor
+        if nm not in eng.st.ghost:
+            eng.st.ghost[nm] = z3.Int('ghost0_' + nm)
+        eng.st.ghost[nm] = eng.st.ghost[nm] + 1
+    return g
+
+
+def events_inv(actor):
+    def inv(v, sv):
+        u = unlogged(sv, actor)
+        return [('C13-every-unlogged-record-is-still-in-the-list', z3.And(u >= 0, u <= v.events.n))]
+    return inv
+
+
 REG.contract('Buffer._add_event', world=BW, params={'observation': 'Observation', 'resource': 'str', 'event': 'str'},
-             ensures=_add_event_ens('buffer'), modifies=['self.events'], props=['C13'])
+             ensures=_add_event_ens('buffer'), ghost=_add_event_ghost('buffer'), modifies=['self.events', 'ghost:unlogged_buffer'],
+             props=['C13'])
 
 REG.contract('Buffer.is_empty', world=BW,
              ensures=lambda c: [('C19-empty-iff-both-tiers-full-free', c.result.t == z3.And(
@@ -259,7 +282,7 @@ def _mof_ens(c):
 REG.contract('Buffer.mark_observation_finished', world=BW, params={'observation': 'Observation'},
              requires=lambda c: [('observation-in-buffer-0', obs_ok(c.o, c.o.observation.t))],
              ensures=_mof_ens, result='bool',
-             modifies=['self.events', 'self.hot.0.current_capacity', 'self.hot.0.observations.finished', 'self.hot.0.observations.scheduled'],
+             modifies=['self.events', 'ghost:unlogged_buffer', 'self.hot.0.current_capacity', 'self.hot.0.observations.finished', 'self.hot.0.observations.scheduled'],
              props=['C07', 'C13', 'C04'])
 
 REG.contract('Buffer.has_observations_ready_for_processing', world=BW,
@@ -276,7 +299,7 @@ def _to_df_ens(c):
             ('C12-stored-count', r['stored'].t == z3.ToReal(cold(s).observations['stored'].n + hot(s).observations['stored'].n))]
 
 
-REG.contract('Buffer.to_df', world=BW, ensures=_to_df_ens, props=['C12'])
+REG.contract('Buffer.to_df', world=BW, ensures=_to_df_ens, props=['C12'], result='frame:hot_buffer=num;cold_buffer=num;stored=num')
 
 
 # ---- ingest_data_stream: one deposit of exactly the rate per timestep, `duration` of them (C07)
@@ -317,7 +340,7 @@ REG.contract('Buffer.ingest_data_stream', world=BW, params={'observation': 'Obse
              yields={0: _ids_y0}, step=_ids_step,
              raises={'RuntimeError': dict(when=lambda c: c.o.observation.status.t == RS('WAITING')),
                      'ValueError': dict(when=lambda c: c.o.observation.ingest_data_rate.t > hot(c.o.self).max_ingest_data_rate.t, unchanged=False, exact=False)},
-             modifies=['self.events', 'self.hot.0.current_capacity', 'self.hot.0.observations.stored', 'self.waiting_observation_list',
+             modifies=['self.events', 'ghost:unlogged_buffer', 'self.hot.0.current_capacity', 'self.hot.0.observations.stored', 'self.waiting_observation_list',
                        'self.stored_times', 'heap:Observation.total_data_size'],
              props=['C07', 'C13'])
 
@@ -410,7 +433,7 @@ def _move_contract(name, src_tier, dst_tier, direction):
                                '_tqdm': 'bool'},
                  requires=_move_req(src_tier), yields={0: _move_y0(src_tier, dst_tier)}, step=_move_step(src_tier, dst_tier, direction),
                  raises={'RuntimeError': dict(when=lambda c: src_tier(c.o.self).observations['stored'].n == 0)},
-                 modifies=['self.events', 'self._data_left_to_transfer', 'self.hot.0.current_capacity', 'self.cold.0.current_capacity',
+                 modifies=['self.events', 'ghost:unlogged_buffer', 'self._data_left_to_transfer', 'self.hot.0.current_capacity', 'self.cold.0.current_capacity',
                            'self.hot.0.observations.stored', 'self.cold.0.observations.stored', 'self.hot.0.observations.transfer',
                            'self.cold.0.observations.transfer'],
                  props=['C18'])
@@ -440,7 +463,7 @@ def _run_y0(c):
 REG.contract('Buffer.run', world=BW, yields={0: _run_y0},
              requires=lambda c: [('stored-observations-are-objects', Q([('o', I)], lambda o: z3.Implies(z3.Or(
                  hot(c.o.self).observations['stored'].count(o) > 0, cold(c.o.self).observations['stored'].count(o) > 0), o > 0)))],
-             modifies=['self.events'], props=['C07', 'C13'],
+             modifies=['self.events', 'ghost:unlogged_buffer'], props=['C07', 'C13'],
              note="the moves it spawns are verified separately (Buffer.move_hot_to_cold / move_cold_to_hot)")
 
 REG.contract('Buffer.project_buffer_capacity', world=BW, params={'obs': 'Observation'}, fix={'b': 0},
